@@ -410,3 +410,9 @@ def r13(ctx, R):
     from . import c20
     c20.dep_setups(ctx, R)
     c20.r11(ctx, R)
+
+
+@rule('C09', 'C09.R14', 'beta, the tolerances and the limits are the configured ones: in every setup() of a convergence controller the user-carrying part comes last, so a user value overrides every default (shared with C20.R6)', floor=70)
+def r14(ctx, R):
+    from . import c20
+    c20.r6(ctx, R)
